@@ -8,8 +8,57 @@ decoding API (random-access, stream, skip, envelope/request readers, framed
 reader, generated Decode/FromWire of plugin/api types) in child processes with an
 address-space limit.  Role C: C13Trace.tla judges measured allocation and source
 calls."""
-import json, os, random
-import vlib
+import json, os, random, subprocess
+import vlib, genlab
+
+
+LAB_APIS = ("lab-decode", "lab-decode-seek", "lab-fromwire")
+
+
+def lab_schema(fields):
+    """MCCost.tla's LabFields as IDL: struct Cost with one field per (container, item type)."""
+    lines = []
+    for f in sorted(fields, key=lambda f: f["id"]):
+        t = f["idl"]
+        ty = {"list": "list<%s>" % t, "set": "set<%s>" % t, "sliceset": 'set<%s> (go.type = "slice")' % t, "map": "map<%s, %s>" % (t, t)}[f["c"]]
+        lines.append("  %d: optional %s f%d" % (f["id"], ty, f["id"]))
+    return "enum E { A = 1, B = 2 }\nstruct Empty {}\nstruct Cost {\n%s\n}\n" % "\n".join(lines)
+
+
+def run_cost_lab(ctx, lab, cases):
+    """Runs the lab's cost op under an address-space limit.  A decode that exhausts it kills the process: the case after the
+    last row written is the one, and the run goes on behind it.  Returns (rows, crashes)."""
+    rows, crashes = [], []
+    d = ctx.dir("costlab")
+    n = max(1, vlib.NCPU)
+    parts = [cases[i::n] for i in range(n)]
+    for rnd in range(40):
+        procs = []
+        for i, part in enumerate(parts):
+            if not part:
+                continue
+            cf, of = os.path.join(d, "cases_%d_%d.ndjson" % (rnd, i)), os.path.join(d, "obs_%d_%d.ndjson" % (rnd, i))
+            vlib.write_ndjson(cf, part)
+            cmd = "ulimit -v %d; exec %s -cases %s -out %s -seed %d" % (3 * 1024 * 1024, lab, cf, of, ctx.seed)
+            procs.append((i, subprocess.Popen(["/bin/sh", "-c", cmd], stdout=subprocess.PIPE, stderr=subprocess.STDOUT), of, part))
+        nxt = [[] for _ in parts]
+        for i, p, of, part in procs:
+            try:
+                out, _ = p.communicate(timeout=1200)
+            except subprocess.TimeoutExpired:
+                p.kill()
+                raise vlib.Inconclusive("cost lab timed out")
+            got = vlib.read_ndjson(of, tolerant=True) if os.path.exists(of) else []
+            rows += got
+            if p.returncode != 0:
+                if len(got) >= len(part):
+                    raise vlib.Inconclusive("cost lab died after its last case:\n" + out.decode("utf-8", "replace")[-1500:])
+                crashes.append((part[len(got)], "rc=%d" % p.returncode, out.decode("utf-8", "replace")[:900]))
+                nxt[i] = part[len(got) + 1:]
+        parts = nxt
+        if not any(parts):
+            break
+    return rows, crashes
 
 
 def canary(row, rng):
@@ -29,10 +78,10 @@ def run(ctx):
     if ctx.replay:
         rep = json.load(open(ctx.replay))
         o = rep["obs"]
-        cases = [{"id": "replay", "b": o["b"], "api": o["api"]}]
+        cases = [{"id": "replay", "b": o["b"], "api": o["api"]}] if o["api"] not in LAB_APIS else []
     else:
         d = ctx.dir("mccost")
-        vlib.model_check(ctx, "MCCost", "MCCost_quick.cfg", workdir=d, timeout=3000, extra=["-dump", "states.dump"])
+        mc = vlib.model_check(ctx, "MCCost", "MCCost_quick.cfg", workdir=d, timeout=3000, extra=["-dump", "states.dump"])
         neg = vlib.tlc(ctx, "MCCost", "MCCost_negctl.cfg", timeout=900, allow_error=True)
         if "Invariant CostOK is violated" not in neg["out"]:
             raise vlib.Inconclusive("negative control failed: pre-allocating the legacy name does not violate CostOK")
@@ -43,12 +92,40 @@ def run(ctx):
         ctx.cov["model_messages"] = {"base": len(base), "inflated": len(infl)}
         k = 900 if ctx.quick() else 40000
         shaped = [m for m in infl if m[0] == '"shaped"']
-        other = [m for m in infl if m[0] != '"shaped"']
+        other = [m for m in infl if m[0] not in ('"shaped"', '"lab"')]
+        labmsgs = [m for m in msgs if m[0] == '"lab"']
+        base = [m for m in base if m[0] != '"lab"']
         ctx.cov["model_messages"]["shaped_inflated"] = len(shaped)
         pick = shaped + rng.sample(other, min(k, len(other))) + rng.sample(base, min(k // 10, len(base)))
         cases = [{"id": "m%d" % i, "b": m[1]} for i, m in enumerate(pick)]
     rows, crashes = vlib.run_driver_batches(ctx, drv, "c13", cases, batch=max(50, len(cases) // 32 + 1), timeout=1200,
                                             mem_kb=3 * 1024 * 1024)
+    # freshly generated code: MCCost.tla's "lab" messages (every container x item type of the Cost struct, counts inflated)
+    # decoded by what the generator under test emits
+    if ctx.replay:
+        labcases = [{"op": "cost", "tn": "Cost", "id": "replay", "b": o["b"], "api": o["api"]}] if o["api"] in LAB_APIS else []
+        fields = rep.get("case", {}).get("labfields") or []
+        if labcases:
+            rows, crashes = [], []
+    else:
+        fields = None
+        for line in mc["out"].splitlines():
+            if line.startswith('<<"LABFIELDS", "'):
+                fields = json.loads(line[len('<<"LABFIELDS", "'):-3].replace('\\"', '"').replace("\\\\", "\\"))
+        if not fields:
+            raise vlib.Inconclusive("MCCost.tla did not print its LabFields")
+        picked = labmsgs if not ctx.quick() else [m for m in labmsgs if m[2] == "0"] + rng.sample([m for m in labmsgs if m[2] == "1"], 1200)
+        labcases = [{"op": "cost", "tn": "Cost", "id": "l%d-%s" % (i, a), "b": m[1], "api": a} for i, m in enumerate(picked) for a in LAB_APIS]
+        ctx.cov["model_messages"]["lab"] = len(labmsgs)
+    if labcases:
+        lab, _ = genlab.build_lab(ctx, [], extra_thrift=lab_schema(fields), name="costlab", extra_structs=["Cost"])
+        lrows, lcrashes = run_cost_lab(ctx, lab, labcases)
+        for r in lrows:
+            rows.append({"op": "c13", "id": r["id"], "api": r["api"], "n": r["n"], "b": r["b"], "alloc": r["alloc"], "calls": 0,
+                         "ok": r["ok"], "panic": r["panic"], "declared": 0})
+        for case, how, out in lcrashes:
+            crashes.append(({"b": case["b"], "api": case["api"], "labfields": fields}, how, out))
+        ctx.cov["lab_rows"] = len(lrows)
     for case, how, out in crashes:
         case.pop("alloc", None); case.pop("calls", None); case.pop("ok", None)
         vlib.report_failure(ctx, case, {"failed": ["process-died:" + how], "output": out[:700]}, case=case)
@@ -59,7 +136,7 @@ def run(ctx):
     bad, _ = vlib.validate_trace(ctx, "C13Trace", rows, canary=canary, shard=8000, timeout=3000)
     for row, why in bad:
         vlib.report_failure(ctx, row, {"failed": why, "id": row.get("id"), "alloc": row["alloc"], "calls": row["calls"]},
-                            case={"b": row["b"], "api": row["api"]})
+                            case={"b": row["b"], "api": row["api"], "labfields": fields if row["api"] in LAB_APIS else None})
     ctx.cov["distinct_nontrivial"] = vlib.distinct_count(rows, lambda r: (r["b"], r["api"]))
     ctx.cov["max_alloc"] = max([r["alloc"] for r in rows] or [0])
     ctx.cov["apis"] = sorted({r["api"] for r in rows})
